@@ -132,3 +132,25 @@ Proof.
   destruct (npix_spec s (b1 * b2) ltac:(nia) Hs) as (E3 & _). rewrite E3.
   apply Z.div_div; lia.
 Qed.
+
+(** ---- lazy images: binning block by block ---- 
+    a signal of length n cut at c into two blocks, each binned on its own (the second restarts its block grid at c) *)
+Lemma bin1_shift (f : Z -> Z) (b k j : Z) : bin1 (fun x => f (b * k + x)) b j = bin1 f b (k + j).
+Proof. unfold bin1. f_equal. apply map_ext. intro a. f_equal. ring. Qed.
+
+Lemma chunk_counts (n b k : Z) : 0 < b -> 0 <= k -> b * k <= n -> npix (b * k) b + npix (n - b * k) b = npix n b.
+Proof.
+  intros Hb Hk Hn. destruct (npix_spec (b * k) b Hb ltac:(nia)) as (E1 & _). destruct (npix_spec (n - b * k) b Hb ltac:(lia)) as (E2 & _).
+  destruct (npix_spec n b Hb ltac:(nia)) as (E3 & _). rewrite E1, E2, E3.
+  replace (b * k) with (k * b) by ring. rewrite Z.div_mul by lia.
+  replace n with ((n - k * b) + k * b) at 2 by ring. rewrite Z.div_add by lia. ring.
+Qed.
+
+(** a cut that is not a multiple of the bin size changes the result: witness *)
+Lemma misaligned_cut_differs :
+  exists (f : Z -> Z) (n b c : Z), 0 < b /\ 0 < c < n /\ c mod b <> 0 /\
+    (npix c b + npix (n - c) b <> npix n b \/ bin1 (fun x => f (c + x)) b 0 <> bin1 f b (npix c b)).
+Proof.
+  exists (fun x => x * x), 7, 2, 3. split; [lia|]. split; [lia|]. split; [vm_compute; discriminate|].
+  right. vm_compute. discriminate.
+Qed.
